@@ -29,9 +29,8 @@ pub fn lock_held() -> bool {
     crate::interface::injector::__verif_lock_held()
 }
 
-/// When false, simulated writes are not required to happen under the injector lock
-/// (harnesses that drive `injector_core` directly, below the public API).
-pub static mut REQUIRE_LOCK: bool = false;
+// NOTE: no `static mut` scalars here - see the comment on `libc::sim::State` (Kani aliases them
+// with equal-valued constants).  Harness switches live in `sim::S` (REQUIRE_LOCK, PANICKING, CELL).
 
 /// stub for `std::ptr::copy_nonoverlapping`
 pub unsafe fn shim_copy<T>(src: *const T, dst: *mut T, count: usize) {
@@ -51,10 +50,11 @@ pub unsafe fn shim_copy<T>(src: *const T, dst: *mut T, count: usize) {
             n <= sim::RLEN,
             "VERIF[C03]: write longer than the designated entry slot / trampoline block"
         );
+        // (a per-byte loop here was measured to be MORE expensive than the intrinsic)
         core::intrinsics::copy_nonoverlapping(s, tmp.as_mut_ptr(), n);
     }
     if dsim {
-        let held = if REQUIRE_LOCK { lock_held() } else { true };
+        let held = if sim::S.REQUIRE_LOCK { lock_held() } else { true };
         sim::write_block(d as u64, &tmp, n, held);
     } else {
         core::intrinsics::copy_nonoverlapping(tmp.as_ptr(), d, n);
@@ -62,9 +62,8 @@ pub unsafe fn shim_copy<T>(src: *const T, dst: *mut T, count: usize) {
 }
 
 /// symbolic `std::thread::panicking()`
-pub static mut PANICKING: bool = false;
 pub fn shim_panicking() -> bool {
-    unsafe { PANICKING }
+    unsafe { sim::S.PANICKING }
 }
 
 /// An arbitrary user-space code address for a function entry with `slot` bytes modelled.
@@ -77,4 +76,22 @@ pub fn any_entry_addr() -> u64 {
 /// do two 24-byte windows starting at a and b overlap?
 pub fn windows_overlap(a: u64, b: u64) -> bool {
     a.abs_diff(b) < sim::RLEN as u64
+}
+
+/// Contract stub for `injector_core::common::allocate_jit_memory`, used ONLY by the multi-install
+/// history harnesses (the retry loop would otherwise be unrolled to the unwind bound at every
+/// installation).  Contract (established on the real function by the C11 harnesses and, for one
+/// installation, by the *_core_* harnesses which run the real allocator): returns a fresh
+/// executable mapping of `code_size` bytes whose address the entry branch of this variant can
+/// reach, or does not return.
+pub fn shim_allocate_jit_memory(src: &crate::injector_core::common::FuncPtrInternal, code_size: usize) -> *mut u8 {
+    unsafe {
+        let mode = sim::S.MODE;
+        sim::S.MODE = 0;
+        sim::S.COOP_CENTER = src.as_ptr() as u64;
+        let p = libc::mmap(core::ptr::null_mut(), code_size, libc::PROT_READ | libc::PROT_WRITE | libc::PROT_EXEC,
+                           libc::MAP_PRIVATE | libc::MAP_ANONYMOUS, -1, 0);
+        sim::S.MODE = mode;
+        p as *mut u8
+    }
 }
